@@ -8,7 +8,7 @@ From Coq Require Import Arith List Bool QArith Qcanon Lia.
 From QV.Core Require Import OF QcOF Sums Mat Psd.
 From QV.Exec Require Import Base.
 From QV.Model Require Import C05_Dykstra.
-From QV.Proofs Require Import C05_Dykstra C05_Sets.
+From QV.Proofs Require Import C05_Dykstra C05_Sets C05_Norms.
 Import ListNotations.
 
 (* ---- invariant: x_k + p_k + q_k = x_0 after every sweep, for arbitrary projections, either order *)
@@ -194,6 +194,42 @@ Theorem C05_gap_le_error : forall (F : OF) (n : nat) (frz : vec -> vec), frz_ok 
         (cmul F (dot n (sp (step F frz PA PB k s)) (sp (step F frz PA PB k s))) (br F n s (step F frz PA PB k s))).
 Proof. exact gap_le_br. Qed.
 Print Assumptions C05_gap_le_error.
+
+(* ---- from the stopping quantity to the infeasibility of the returned point (round 3: the norm step that used to be
+   pen-and-paper).  y in a linear equality set: the squared constraint residuals of x are bounded by |c_j|^2 |x-y|^2 *)
+Theorem C05_eq_residual_le : forall (F : OF) (n m : nat) (c : nat -> vec) (b : nat -> F) (x y : vec),
+  lin_set F n m c b y -> forall j, (j < m)%nat ->
+  kle F (cmul F (csub F (dot n (c j) x) (b j)) (csub F (dot n (c j) x) (b j))) (cmul F (dot n (c j) (c j)) (dist2 F n x y)).
+Proof. exact eq_residual_le. Qed.
+Print Assumptions C05_eq_residual_le.
+
+(* Y PSD and |X - Y|_F^2 <= t^2 (t >= 0)  =>  X + t I PSD : the smallest eigenvalue moves by at most the Frobenius distance *)
+Theorem C05_psd_shift : forall (F : OF) (n : nat) (X Y : mat) (t : F),
+  kle F (c0 F) t -> kle F (inner n n (msub X Y) (msub X Y)) (cmul F t t) -> PSD F n Y -> PSD F n (shift F t X).
+Proof. exact psd_shift. Qed.
+Print Assumptions C05_psd_shift.
+
+(* order "eq_ineq": the first projection maps into the equality set { z | <c_j,z> = b_j }; the point x' returned by a sweep
+   whose stopping quantity is error_value = br s (step k s) has squared residuals summing to at most (sum_j |c_j|^2) error_value *)
+Theorem C05_returned_eq_residual : forall (F : OF) (n : nat) (frz : vec -> vec), frz_ok F n frz ->
+  forall (PA PB : nat -> vec -> vec) (m : nat) (c : nat -> vec) (b : nat -> F) (k : nat) (s : dstate F),
+  (forall k u, lin_set F n m c b (PA k u)) ->
+  kle F (sumn m (fun j => cmul F (csub F (dot n (c j) (sx (step F frz PA PB k s))) (b j))
+                                 (csub F (dot n (c j) (sx (step F frz PA PB k s))) (b j))))
+        (cmul F (sumn m (fun j => dot n (c j) (c j))) (br F n s (step F frz PA PB k s))).
+Proof. exact returned_eq_residual. Qed.
+Print Assumptions C05_returned_eq_residual.
+
+(* order "ineq_eq": the first projection maps into the PSD cone (as an operator, through an isometric linear Op); if the
+   stopping quantity is <= t^2 the returned x' is PSD after a shift by t *)
+Theorem C05_returned_psd_shift : forall (F : OF) (n : nat) (frz : vec -> vec), frz_ok F n frz ->
+  forall (PA PB : nat -> vec -> vec) (md : nat) (Op : vec -> mat) (k : nat) (s : dstate F) (t : F),
+  (forall u v, inner md md (Op u) (Op v) = dot n u v) ->
+  (forall u v i j, Op (vsub u v) i j = csub F (Op u i j) (Op v i j)) ->
+  PSD F md (Op (sy (step F frz PA PB k s))) -> kle F (c0 F) t -> kle F (br F n s (step F frz PA PB k s)) (cmul F t t) ->
+  PSD F md (shift F t (Op (sx (step F frz PA PB k s)))).
+Proof. exact returned_psd_shift. Qed.
+Print Assumptions C05_returned_psd_shift.
 
 (* ---- already-physical input: every iterate is the input, p = q = 0; the loop stops after exactly two sweeps with
    error_value = [None, 0] *)
